@@ -11,3 +11,4 @@ CONSTANTS
   MaxDepth = 6
   Emit = TRUE
   CheckDump = FALSE
+  ExcuseKnown = TRUE
